@@ -813,11 +813,14 @@ class DateParserPlugin(plugins.Plugin):
                 ts = timespan(start, end).disambiguated(self.basedate)
                 start, end = ts.start, ts.end
             elif start:
-                start = start.disambiguated(self.basedate)
+                # (a relative expression such as "+1mo" is already a datetime)
+                if not isinstance(start, datetime):
+                    start = start.disambiguated(self.basedate)
                 if isinstance(start, timespan):
                     start = start.start
             elif end:
-                end = end.disambiguated(self.basedate)
+                if not isinstance(end, datetime):
+                    end = end.disambiguated(self.basedate)
                 if isinstance(end, timespan):
                     end = end.end
         except self.date_errors:
